@@ -19,7 +19,7 @@ Failure of any step is a broken tie: res.violation("translated source no longer 
 added to res.corr_obligations and the counts go to res.cov["translation_tie"].
 
 `functions`: None = every group of Equiv.v; otherwise an iterable of group names ("can",
-"descriptor", "wire", "physical", "apidecide", "netlink", "scan") and/or translated function names
+"descriptor", "wire", "physical", "apidecide", "netlink", "scan", "dbcid", "dbcvalidate", "lookup", "lintnames") and/or translated function names
 ("Data_Bit", "Signal_MaxUnsigned", ...):
 the groups containing them, plus the groups those require, are checked (a group is the unit because
 the generated records contain exactly the struct fields the translated functions use).
@@ -49,9 +49,21 @@ TIE_NOTE_FLOAT = (" The translated float64/float32 operations are read as one IE
                   "(Translate/GoSemFloat.v on Flocq: no FMA fusion, amd64, a single NaN, math.Max/Min by the case order of dim.go, "
                   "constants = the bit pattern go/types computes); the T_ lemmas of these groups depend on the standard-library "
                   "real-number axioms that Flocq uses and on nothing else.")
-TIE_NOTE_SLICE = (" Translated []byte values are their contents (nil = empty, no aliasing: only stores into a make'd local are "
-                  "accepted), slice/index panics are not modelled by the translation (the hand model's checked slicing is what the "
+TIE_NOTE_SLICE = (" Translated []byte values are their contents (nil = empty, no aliasing: only stores into a make'd local or into the "
+                  "one written []byte parameter are accepted), slice/index panics other than an explicit `_ = b[k]` check are not modelled by the translation (the hand model's checked slicing is what the "
                   "no-out-of-bounds theorems are about), nlenc is little-endian.")
+TIE_NOTE_WIRE = (" Translated here: Frame.Validate and all of pkg/socketcan/frame.go (encodeFrame, decodeFrame, isExtended/isRemote/"
+                 "isError/id, unmarshalBinary, marshalBinary, decodeErrorFrame and its seven accessors). The two codecs are "
+                 "translated to functions into option (None = the explicit bounds check `_ = b[15]` panics; the only panic the "
+                 "translation models); marshalBinary returns the final contents of the []byte parameter it writes through, "
+                 "assumed not to overlap the receiver; binary.LittleEndian.Uint32/PutUint32 are read as little-endian "
+                 "accessors of the first four bytes (Translate/GoSem.v).")
+TIE_NOTE_LOOP = (" Loops of the form `for i, x := range l` / `for i := 0; i < len(l); i++` whose body assigns locals, continues or "
+                 "returns are translated to the fold go_range of Translate/GoSem.v (state = the assigned locals, early exit = "
+                 "LoopReturn); a []*S is read as the list of the element values (elements assumed non-nil, pointer identity not "
+                 "represented), a returned *S as option S; `range` over a string decodes UTF-8 by GoSem.v's go_utf8_decode (RFC 3629 "
+                 "table, invalid byte = U+FFFD of width 1); unicode.IsDigit/IsUpper are uninterpreted (parameters of the translated "
+                 "function: the lemma holds for every interpretation).")
 
 
 def describe(properties, pid, functions, *notes):
@@ -204,7 +216,7 @@ def run_tie(res, functions=None, timeout=240):
         tsrc = open(os.path.join(out_dir, "Translated.v"), encoding="utf-8").read()
         stripped = vlib.strip_coq_comments(body)
         orphan = [f for f in translated
-                  if not re.search(r"Lemma\s+T_%s_eq\b[^.]*?Translated\.%s\b" % (re.escape(f), re.escape(f)), stripped, re.S)]
+                  if not re.search(r"Lemma\s+T_%s_eq\b(?:[^.]|\.(?=\w))*?Translated\.%s\b" % (re.escape(f), re.escape(f)), stripped, re.S)]
         if orphan:
             return broken("no lemma T_%s_eq about Translated.%s in the selected groups of Equiv.v" % (orphan[0], orphan[0]),
                           {"functions_without_lemma": orphan})
